@@ -30,7 +30,8 @@ RULE = ("case = random circuit over the exportable set (Ket, Bra, Bits(0), H, S,
         "positions, <= 4 live wires (5 for an eighth of the thorough tier: the mixed evaluation costs 16**wires), <= 10 boxes; or a random tket circuit over "
         "{H,S,T,X,Y,Z,CX,CZ,Rx,Rz,CRz,Measure} on <= 4 qubits / <= 2 bits.  "
         "Non-trivial = at least one measurement/post-selection and one "
-        "mid-circuit preparation or swap; distinct by repr.")
+        "mid-circuit preparation or swap; distinct by repr."
+        "  Also: export/import histories on the same objects (first export disturbed, second export and evaluation; from_tk leaves its argument alone; second import) and batch evaluation/counting through the backend.")
 SIZES = {"quick": (16, 60), "thorough": (16, 1000)}
 TIMEOUT = {"quick": 900, "thorough": 7200}
 COVER = {"discopy.quantum.tk:to_tk": 0.85,
